@@ -87,7 +87,7 @@ def hx(b):
 
 
 def show_hdrs(h):
-    items = [(k.encode("utf-8", "surrogateescape"), v.encode("utf-8", "surrogateescape")) for k, v in h.items()]
+    items = [(k.encode("utf-8", "surrogateescape"), v.encode("utf-8", "surrogateescape")) for k, v in getattr(h, '_md', h).items()]
     return "&".join(f"{hx(k)}={hx(v)}" for k, v in items) if items else "~"
 
 
@@ -196,7 +196,8 @@ def run_reader(loop, wire_segs, boundary, subtype, *, script, descend=True, pref
             err = err_name(e)
             events.append(err)
 
-    loop.run_until_complete(lazily_fed(sr, wire_segs, prefed, eof_with_last, main()))
+    _, fed = loop.run_until_complete(lazily_fed(sr, wire_segs, prefed, eof_with_last, main()))
+    rd.fed_bytes = fed
     return " ".join(events), parts, sr.steps, err, rd
 
 
